@@ -520,16 +520,49 @@ class LazyField(object):
         self.fn = fn
 
 
-class PyList(object):
-    """list: concrete spine `items`, or symbolic (length, arr) of ints when
-    items is None."""
-    __slots__ = ('items', 'length', 'arr', 'tag')
+class AbsVal(object):
+    """An abstract value identified by an Int term (e.g. 'the i-th node of a symbolic list').
+    `methods`: name -> fn(it, self, args, kwargs) giving the interface contract of a method."""
+    __slots__ = ('term', 'kind', 'methods', 'attrs')
 
-    def __init__(self, items=None, length=None, arr=None, tag=''):
+    def __init__(self, term, kind, methods=None, attrs=None):
+        self.term = term
+        self.kind = kind
+        self.methods = methods or {}
+        self.attrs = attrs or {}
+
+    def pyvc_getattr(self, it, name):
+        if name in self.attrs:
+            a = self.attrs[name]
+            return a(it, self) if callable(a) else a
+        if name in self.methods:
+            fn = self.methods[name]
+            return Builtin('%s.%s' % (self.kind, name), lambda it2, a, k: fn(it2, self, a, k))
+        raise EngineError('abstract %s value has no contract for attribute %s' % (self.kind, name))
+
+    def __repr__(self):
+        return '<abs %s %s>' % (self.kind, self.term)
+
+
+class Codec(object):
+    """How values are stored as Ints in a symbolic list."""
+    def __init__(self, encode, decode, name=''):
+        self.encode = encode      # (it, value) -> Int term
+        self.decode = decode      # (it, Int term) -> value   (may fork)
+        self.name = name
+
+
+class PyList(object):
+    """list: concrete spine `items`, or symbolic (length, arr) of ints (or of
+    Int-coded values, see Codec) when items is None."""
+    __slots__ = ('items', 'length', 'arr', 'tag', 'codec')
+
+    def __init__(self, items=None, length=None, arr=None, tag='', codec=None):
         self.items = items
         self.length = length
         self.arr = arr
         self.tag = tag
+        self.codec = codec
 
     def is_concrete(self):
         return self.items is not None
